@@ -23,7 +23,7 @@ let parse_idx tok =
   | 'm' -> IMask (List.map (fun z -> int_of_z z <> 0) (zlist_of_string rest))
   | _ -> failwith "bad index token"
 let str_err = function
-  | EIndex -> "index" | EStep0 -> "step0" | EKind -> "kind" | EVectorize0 -> "vectorize0"
+  | EIndex -> "index" | EStep0 -> "step0" | EKind -> "kind"
   | EShape -> "shape" | EVolume -> "volume" | ENegative -> "negative" | ENvert -> "nvert"
   | EStep -> "step" | EUnit -> "unit" | EAssign -> "assign" | ENoVolume -> "novolume"
   | ENotMapped -> "notmapped" | EDataShape -> "datashape" | ENoExt -> "noext"
